@@ -9,6 +9,10 @@
 (*   svcs  : [peer, node, id, name, ver]       key (peer, node, id)           *)
 (*   chks  : [peer, node, cid, sid, st]        key (peer, node, cid)          *)
 (*           sid = "" : node-level check, otherwise the owning instance id     *)
+(* addr / ver / st are opaque attribute values (strings).  The harness writes *)
+(* each of them into SEVERAL real fields (address + node meta + tagged        *)
+(* address; port + tag + service meta; status + output) and the trace spec    *)
+(* maps a row whose copies disagree to the value "inconsistent".              *)
 (* (agent/consul/state/catalog_schema.go: indexWithPeerName on every index).  *)
 (* `rest` is every other row of the state store, as opaque [peer, tbl, x].    *)
 (*                                                                            *)
@@ -184,13 +188,18 @@ UnusedNodesGone(pre, post, p, svc, snap) ==
 NIOtherPeers(pre, post, p) ==
   \A q \in {r.peer : r \in pre.nodes \cup post.nodes} \cup {r.peer : r \in pre.svcs \cup post.svcs}
            \cup {r.peer : r \in pre.chks \cup post.chks} :
-     q # p => PeerRows(pre, q) = PeerRows(post, q)
+     (q # p /\ q # Local) => PeerRows(pre, q) = PeerRows(post, q)
 NILocal(pre, post, p) == p # Local => PeerRows(pre, Local) = PeerRows(post, Local)
 (* rows outside the catalog: nothing that belongs to somebody else may change; of p's own   *)
 (* rows only the virtual-IP allocation of an imported service may                            *)
 RestMutable == {"service-virtual-ips"}
-NIRest(pre, post, p) ==
-  {r \in pre.rest : ~(r.peer = p /\ r.tbl \in RestMutable)} = {r \in post.rest : ~(r.peer = p /\ r.tbl \in RestMutable)}
+GatewayTables == {"gateway-services", "mesh-topology"}     \* derived tables of the LOCAL cluster's gateways
+NIRestIn(pre, post, p, tbls) ==
+  {r \in pre.rest : r.tbl \in tbls /\ ~(r.peer = p /\ r.tbl \in RestMutable)}
+    = {r \in post.rest : r.tbl \in tbls /\ ~(r.peer = p /\ r.tbl \in RestMutable)}
+NIRestGateway(pre, post, p) == NIRestIn(pre, post, p, GatewayTables)
+NIRestOther(pre, post, p) == NIRestIn(pre, post, p, {r.tbl : r \in pre.rest \cup post.rest} \ GatewayTables)
+NIRest(pre, post, p) == NIRestGateway(pre, post, p) /\ NIRestOther(pre, post, p)
 (* same peer: every row that does not belong to svc, to a node of the snapshot or to a node *)
 (* that svc just left is unchanged.  Touch* = the keys an update of (p, svc) may write.      *)
 TouchNode(pre, p, svc, snap, r) == r.node \in SnapNodes(snap) \cup {s.node : s \in Stored(pre, p, svc)}
